@@ -3,6 +3,21 @@ package main
 var watchFaults = []string{"watch-connect-error", "watch-close-mid", "watch-close-after-burst", "watch-close-idle", "watch-status-frame", "watch-bookmark"}
 
 var props = map[string]propCfg{
+	"C05": {Title: "subscribers see the published sequence in order exactly once", QuickRuns: 8000, ThoroughRuns: 800000, QuickSec: 40, ThoroughSec: 900,
+		Technique: "deterministic simulation: Subscribe/Clone trees with late subscribers, perturbed logger/map order, pairwise sequence + suffix + cache-not-older oracles"},
+	"C06": {Title: "filtered node == filter applied to parent", QuickRuns: 8000, ThoroughRuns: 800000, QuickSec: 40, ThoroughSec: 900,
+		Technique: "deterministic simulation: nested filtered subscriptions/clones, racing Refilters, label-moving histories, relists; cache == filter(parent cache) at quiescence"},
+	"C10": {Title: "slow consumers are isolated", QuickRuns: 6000, ThoroughRuns: 600000, QuickSec: 40, ThoroughSec: 900,
+		Technique: "deterministic simulation: stalled/slow readers and blocking handlers, small buffers, long streams; healthy siblings complete, stalled ones lose only what exceeds their buffer"},
+	"C11": {Title: "shutdown cascades down only", QuickRuns: 8000, ThoroughRuns: 800000, QuickSec: 40, ThoroughSec: 900,
+		Technique: "deterministic simulation: mixed trees depth 4 under traffic, close of any node by any mechanism at a drawn instant; Done exactly for the subtree, survivors functional"},
+	"C12": {Title: "termination is clean", QuickRuns: 8000, ThoroughRuns: 800000, QuickSec: 40, ThoroughSec: 900,
+		Technique: "deterministic simulation: shutdown-point sweep (trigger at scheduler step k), bounded Close, goroutine-leak registry, API calls around shutdown",
+		Faults: []string{"watch-connect-error", "watch-connect-hang", "watch-connect-delay", "watch-close-mid", "watch-close-idle", "list-hang"}},
+	"C14": {Title: "list failures fail-stop, watch failures never fatal", QuickRuns: 6000, ThoroughRuns: 600000, QuickSec: 40, ThoroughSec: 900,
+		Technique: "deterministic simulation: list failure kind x position enumerated, watch failure kinds at every position; fail-stop with cause vs. never fatal"},
+	"C16": {Title: "monitor callbacks", QuickRuns: 8000, ThoroughRuns: 800000, QuickSec: 40, ThoroughSec: 900,
+		Technique: "deterministic simulation: monitors with slow handlers, closes before/after readiness; init-first-once, serial, replay == cache, silent after Done"},
 	"C01": {Title: "cache content is the accepted newest-version view", QuickRuns: 60000, ThoroughRuns: 6000000, QuickSec: 40, ThoroughSec: 900,
 		Technique: "deterministic simulation of the cache actor: seeded operation sequences + one-step alphabet sweep, reference-model refinement, panic/wedge detection"},
 	"C02": {Title: "events are an exact minimal well-formed delta", QuickRuns: 60000, ThoroughRuns: 6000000, QuickSec: 40, ThoroughSec: 900,
